@@ -56,6 +56,7 @@ def build_interp_campaign(tier, sd):
             if w not in ws:
                 ws.append(w)
         cp.add_cases(cid, dms_for(c), ws, modes=("drip", "preload"))
+        cp.add_cases(cid, ["lua"], [w for w in ws if len(w) <= 1], modes=("cancel@2", "cancel@4", "cancel@7"))
     fam["D"] = {"charts": len(cp.charts), "exhaustive": True}
 
     # --- E(n, m): bounded-exhaustive
@@ -92,8 +93,8 @@ def build_interp_campaign(tier, sd):
         add_E(2, 1, 1.0, 3)
         add_E(3, 0, 1.0, 1)
         add_E(3, 1, 1.0, 2)
-        add_E(2, 2, 0.25, 2, tl=True)
-        nrand = 400
+        add_E(2, 2, 0.1, 2, tl=True)
+        nrand = 250
     else:
         add_E(1, 0, 1.0, 1)
         add_E(1, 1, 1.0, 4)
@@ -149,7 +150,7 @@ def write_batch(cp, cases, engine, path, render_cache):
             f.write(x + b"\n")
 
 
-def run_campaign(cp, workdir, engines=("large", "fast"), nshards=NCPU, maxsteps=60, variants=()):
+def run_campaign(cp, workdir, engines=("large", "fast"), nshards=NCPU, maxsteps=40, variants=()):
     """record + judge; returns result dict (also stored as result.json in workdir)"""
     t0 = time.time()
     os.makedirs(workdir, exist_ok=True)
@@ -158,9 +159,22 @@ def run_campaign(cp, workdir, engines=("large", "fast"), nshards=NCPU, maxsteps=
     charts_file = os.path.join(workdir, "charts.ndjson")
     write_charts(cp, charts_file)
     # shard by contiguous ranges (cases of one chart stay together)
-    n = len(cp.cases)
-    per = max(1, (n + nshards - 1) // nshards)
-    shards = [cp.cases[i:i + per] for i in range(0, n, per)]
+    # balance: cases of one chart stay together, charts are dealt to the lightest shard
+    # (estimated cost: event-word length, chart size, datamodel)
+    bychart = {}
+    for cs in cp.cases:
+        bychart.setdefault(cs["chart"], []).append(cs)
+    def weight(cid, css):
+        nst = len(cp.charts[cid - 1].states)
+        return sum((len(c["word"]) + 3) * (nst + 4) for c in css)
+    groups = sorted(bychart.items(), key=lambda kv: -weight(*kv))
+    shards = [[] for _ in range(nshards)]
+    loads = [0] * nshards
+    for cid, css in groups:
+        i = loads.index(min(loads))
+        shards[i].extend(css)
+        loads[i] += weight(cid, css)
+    shards = [sorted(s_, key=lambda c: c["id"]) for s_ in shards if s_]
     rc_cache = {}
     rec_cmds = []
     for si, sh_cases in enumerate(shards):
@@ -191,6 +205,9 @@ def run_campaign(cp, workdir, engines=("large", "fast"), nshards=NCPU, maxsteps=
             cmd = tlc_cmd("Trace_Step.tla", cfgp, md)
             cmd[cmd.index("-config") + 1] = cfgp
             jobs.append(("step", si, eng, cmd, {"CHARTS": charts_file, "TRACE": tr}))
+            jobs.append(("monitor", si, eng,
+                         tlc_cmd("Trace_Monitor.tla", "Trace_Monitor.cfg", os.path.join(workdir, "meta.s%02d.%s.mon" % (si, eng))),
+                         {"TRACE": tr + ".raw"}))
         if len(engines) == 2:
             for suffix, kind in (("", "lock"), (".raw", "lockraw")):
                 a = os.path.join(workdir, "s%02d.%s.ndjson%s" % (si, engines[0], suffix))
@@ -204,9 +221,12 @@ def run_campaign(cp, workdir, engines=("large", "fast"), nshards=NCPU, maxsteps=
     states = 0
     lines = 0
     failures = []
+    action_counts = {}
     for j, (rc, out) in zip(jobs, outs):
         p = parse_tlc(out)
         states += p["distinct"]
+        for k, n in p["counts"].items():
+            action_counts[k] = action_counts.get(k, 0) + n
         ok = p["ok"] and p["error"] is None
         if j[0].startswith("lock") and '"LOCKSTEP-DONE"' not in out:
             ok = False
@@ -229,11 +249,12 @@ def run_campaign(cp, workdir, engines=("large", "fast"), nshards=NCPU, maxsteps=
                         ncalls += 1
     result = {"cases": len(cp.cases), "charts": len(cp.charts), "engines": list(engines),
               "traces": len(cp.cases) * len(engines), "trace_lines": lines, "step_calls": ncalls,
-              "tlc_states": states, "verdicts": verdicts, "failures": failures,
+              "tlc_states": states, "spec_actions_matched": action_counts, "verdicts": verdicts, "failures": failures,
               "families": cp.meta["families"], "variants": list(variants),
               "t_gen": round(t1 - t0, 1), "t_record": round(t2 - t1, 1), "t_judge": round(t3 - t2, 1)}
-    with open(os.path.join(workdir, "result.json"), "w") as f:
-        json.dump(result, f)
+    if not failures:      # a run in which the machinery itself failed is never cached
+        with open(os.path.join(workdir, "result.json"), "w") as f:
+            json.dump(result, f)
     return result
 
 
